@@ -47,6 +47,28 @@ def sweep(rep, conn, transport, handle, cid, lengths):
                 hc = "plain" if handle < 0x80 and cid < 0x80 else "wide-handles"
                 rep.violation(f"sweep/{transport}/{clause}/{'odd' if n % 2 else 'even'}/{hc}", f"conn {conn} {transport} data length {n} session {handle:#x} connection id {cid:#x}: {detail}",
                               {"kind": "sweep", "conn": conn, "transport": transport, "handle": handle, "cid": cid, "n": n})
+        # the packet classes driven directly (the documented extension point): a body of 0..4 added bytes, also none at all
+        if transport in ("connected", "ucmm"):
+            from pycomm3.packets import SendUnitDataRequestPacket, SendRRDataRequestPacket
+
+            for extra in (None, b"", b"\x01", b"\x01\x02", b"\x0e\x02\x20\x01", b"\x01\x02\x03"):
+                m0, e0 = len(w.messages), len(t.events)
+                pkt = SendUnitDataRequestPacket(d._sequence) if transport == "connected" else SendRRDataRequestPacket()
+                if extra is not None:
+                    pkt.add(extra)
+                out = call(d.send, pkt)
+                probs = []
+                for msg in w.messages[m0:]:
+                    ln = W.frame_len(msg)
+                    if ln is None or ln != len(msg):
+                        probs.append(("frame/length-field", f"{len(msg)} bytes written, header length field implies {ln}"))
+                probs += [(tag[4:], detail) for tag, detail in t.events[e0:] if tag.startswith("C11") and tag != "C11/connected-data"]
+                if out[0] not in ("ok", "pycomm"):
+                    probs.append(("exception", repr(out)[:100]))
+                rep.case((conn, transport, handle, cid, "raw", extra), outcome="ok" if not probs else probs[0][0])
+                for clause, detail in probs[:2]:
+                    rep.violation(f"sweep/{transport}/raw-packet/{clause}", f"conn {conn} {transport} packet class sent directly with added bytes {extra!r}: {detail}",
+                                  {"kind": "sweep", "conn": conn, "transport": transport, "handle": handle, "cid": cid, "n": 0})
         call(d.close)
         rep.add("states", len(w.messages))
         for clause, detail in frame_violations(w, t):
